@@ -13,6 +13,8 @@ def run_engine(name, prop, tier, seed, build, run_workers, log, ctx):
         return proto_check(prop, ctx, log)
     if name == "miri":
         return miri(prop, tier, seed, ctx, log)
+    if name == "fuzz":
+        return fuzz(prop, tier, seed, ctx, log, build)
     if name == "tsan":
         return tsan(prop, tier, seed, ctx, log, build, run_workers)
     raise SystemExit("unknown engine " + name)
@@ -133,4 +135,70 @@ def tsan(prop, tier, seed, ctx, log, build, run_workers):
     out["results"], out["aborts"], out["inconclusive"] = res, ab, inc
     out["coverage"] = {"tsan_evaluations": sum(r["evaluations"] for r in res), "wall_s": round(time.time() - t0, 1)}
     log("tsan: %d evaluations in %.1fs" % (out["coverage"]["tsan_evaluations"], time.time() - t0))
+    return out
+
+
+FUZZ_TARGET = {"C01": "parse_diff", "C02": "parse_diff", "C18": "parse_diff", "C03": "roundtrip", "C04": "roundtrip",
+               "C05": "roundtrip", "C06": "roundtrip", "C07": "rename", "C13": "text", "C14": "text"}
+
+
+def fuzz(prop, tier, seed, ctx, log, build):
+    """Coverage-guided exploration (libFuzzer + ASan, cargo-fuzz) of the same oracles, seeded from the generators."""
+    out = {"results": [], "aborts": [], "inconclusive": [], "coverage": {}}
+    target = FUZZ_TARGET[prop]
+    t0 = time.time()
+    binp = build("checked")
+    if binp is None:
+        out["inconclusive"].append("build failed")
+        return out
+    work = os.path.join(ctx["target"], "fuzz-work", prop)
+    corpus = os.path.join(work, "corpus")
+    arts = os.path.join(work, "artifacts")
+    subprocess.run(["rm", "-rf", work])
+    os.makedirs(arts, exist_ok=True)
+    r = subprocess.run([binp, "dump-corpus", corpus, str(seed)], stdout=subprocess.PIPE, text=True)
+    if r.returncode != 0:
+        out["inconclusive"].append("could not dump the seed corpus")
+        return out
+    env = dict(ctx["env"])
+    env["RUSTFLAGS"] = "--cfg dnssector_verif"
+    secs = ctx.get("fuzz_seconds", 90)
+    cmd = ["cargo", "+nightly", "fuzz", "run", "--target-dir", os.path.join(ctx["target"], "fuzz"), target,
+           os.path.join(corpus, target), "--", "-max_total_time=%d" % secs, "-timeout=10", "-fork=%d" % (os.cpu_count() or 16),
+           "-artifact_prefix=%s/" % arts, "-max_len=4096"]
+    fr = subprocess.run(cmd, cwd=os.path.join(ctx["harness"]), env=env, stdout=subprocess.PIPE, stderr=subprocess.STDOUT, text=True)
+    stats = re.findall(r"#(\d+): cov: (\d+) ft: (\d+) corp: (\d+)", fr.stdout)
+    if not stats:
+        out["inconclusive"].append("fuzzer produced no statistics: %s" % fr.stdout[-400:])
+        return out
+    execs, cov, ft, corp = (int(x) for x in stats[-1])
+    found = sorted(os.listdir(arts))
+    viols = []
+    for a in found:
+        pth = os.path.join(arts, a)
+        one = subprocess.run([binp, "fuzz-one", target, pth], stdout=subprocess.PIPE, stderr=subprocess.PIPE, text=True, env=ctx["env"])
+        got = []
+        try:
+            js = [l for l in one.stdout.splitlines() if l.startswith("{")]
+            got = [v for v in json.loads(js[-1])["violations"] if v["property"] == prop]
+        except Exception:
+            pass
+        if got:
+            for v in got:
+                v["detail"] += " (fuzz artifact kept at %s)" % pth
+                viols.append(v)
+        elif a.startswith("crash-") and one.returncode != 0:
+            out["aborts"].append({"shard": 0, "nshards": 1, "rc": one.returncode, "case": None, "phase_hash": None,
+                                  "stderr": one.stderr[-3000:], "flavour": "fuzz"})
+        elif a.startswith("timeout-") and prop in ("C01", "C18"):
+            viols.append({"property": prop, "signature": "fuzz|input-needs-more-than-10s", "detail": "artifact %s" % pth,
+                          "case": 0, "phase": "fuzz", "input_hex": "", "count": 1})
+    out["results"].append({"check": prop, "flavour": "fuzz", "seed": seed, "shard": 0, "nshards": 1, "tier": tier,
+                           "evaluations": execs, "exhaustive": False, "distinct_extra": 0, "timed_out": False,
+                           "wall_s": round(time.time() - t0, 1), "distinct": [],
+                           "counters": {"fuzz_executions": execs, "fuzz_corpus": corp}, "maxima": {"fuzz_coverage_edges": cov, "fuzz_features": ft},
+                           "samples": [], "notes": [], "violations": viols})
+    out["coverage"] = {"target": target, "executions": execs, "coverage_edges": cov, "features": ft, "corpus": corp,
+                       "artifacts": found, "seconds": secs, "sanitizer": "address (cargo-fuzz default)"}
+    log("fuzz %s: %d executions, cov %d, corpus %d, %d artifacts" % (target, execs, cov, corp, len(found)))
     return out
